@@ -145,6 +145,9 @@ def write_ticks(case):
     for i, op in enumerate(case["ops"]):
         if op["op"] == "batch" and op.get("reject"):
             pass
+        elif op["op"] == "par":
+            t += len(op["sets"])
+            ticks[i] = t
         elif op["op"] in ("batch", "txn", "htxn", "jstxn"):
             t += 1
             ticks[i] = t
@@ -342,8 +345,15 @@ def case_term(codes, case, obs):
             if op.get("reader"):
                 tokens[key] = oo.get("next", 0)
             terms.append("SRev %d %s %d %s %s" % (ds_code(case, op["ds"]), vlib.zlit(since), op.get("limit", 0), ents, vlib.zlit(nxt)))
-        elif k == "seqs":
+        elif k in ("seqs", "burn", "restart"):
             pass
+        elif k == "par":
+            # batches into different datasets stored at the same moment: independent, so any order is THE outcome
+            lens = list(oo.get("lens") or [])
+            for s_ in op["sets"]:
+                ls = (lens[:len(s_["ents"])] + [0] * len(s_["ents"]))[:len(s_["ents"])]
+                lens = lens[len(s_["ents"]):]
+                terms.append("SWrite (WBatch %d %s) (-1)" % (ds_code(case, s_["ds"]), vlib.coq_list([ent_term(codes, e, l) for e, l in zip(s_["ents"], ls)])))
         elif k == "rawkeys":
             for fam, keys in sorted((oo.get("raw") or {}).items(), key=lambda kv: int(kv[0])):
                 ks = vlib.coq_list([vlib.coq_list(["%d%%N" % b for b in bytes.fromhex(h)]) for h in keys])
